@@ -1,5 +1,6 @@
 import GlyProofs.Front.CreateLemmas
 import GlyProofs.Smiles.Shape
+import GlyProofs.Smiles.OneCentre
 import GlyModel.Api.Query
 /-
   C13 — Reducing-end anomer and SMILES start atom change only what they should. (Property theorems only.)
@@ -45,5 +46,19 @@ theorem C13_mark_is_local (ts ts' : List Tok) (hf : ShapeList ts ts') (x : St) (
   refine ⟨x', hx', hb.1, hb.2.2.1, hb.2.2.2.2.1, ?_, ?_⟩
   · simpa [St.init] using run_atoms ts St.init x h
   · simpa [St.init] using run_atoms ts' St.init x' hx'
+
+open Gly.Smi in
+/-- **Declaring the anomer changes exactly one atom of the whole glycan.** Two reducing-end residue strings that are equal except
+    for the text of one atom token (`a` / `b`: `[C@H]`, `[C@@H]` or `C` at the anomeric carbon, as in the a / b / plain rows of
+    the library, `C08_anomers_one_mark_*`), carrying the same children – of any depth – at the same markers: the two Spec
+    molecules have the same bond events (bonds, ring closures, ordered neighbour lists) and the same atoms except exactly
+    that one. By `C01_tree_refines_spec` the assembled strings denote these two molecules. -/
+theorem C13_one_centre_whole_glycan (t1 t2 : List Tok) (a b : Atom) (kids : List (Atom × Bool × TNode)) (M : Mol)
+    (hm : ∀ m ∈ markersOf kids, m ≠ a ∧ m ≠ b)
+    (hs : specTree (.mk (t1 ++ [Tok.atom a] ++ t2) kids) = some M) :
+    ∃ M', specTree (.mk (t1 ++ [Tok.atom b] ++ t2) kids) = some M' ∧ M.evs = M'.evs ∧
+      ∃ pre post, M.atoms = pre ++ [a] ++ post ∧ M'.atoms = pre ++ [b] ++ post := by
+  obtain ⟨M', h1, h2, pre, post, h3, h4⟩ := specTree_oneOff t1 t2 a b kids M hm hs
+  exact ⟨M', h1, h2, pre, post, h3, h4⟩
 
 end Gly.Props.C13
